@@ -62,6 +62,10 @@ pub struct Case {
     pub header_macros: Vec<(String, String)>,
     #[serde(default)]
     pub include_after: usize,
+    /// 1-3: a conditional group in front of the literals whose clause after the taken one holds a string
+    /// literal (1: #if 1 / #else, 2: #ifdef of a defined name / #else, 3: #if 1 / #elif 1 / #else)
+    #[serde(default)]
+    pub skipped_literal: u8,
 }
 
 impl Reducible for Case {
@@ -347,7 +351,7 @@ pub fn gen_case(g: &mut G, ex: &Excl) -> Case {
     if g.chance(1, 2) {
         macros.push(("A".to_string(), "5".to_string()));
     }
-    Case { lines, stmts, macros, header, header_macros, include_after }
+    Case { lines, stmts, macros, header, header_macros, include_after, skipped_literal: if g.chance(1, 3) { 1 + g.below(3) as u8 } else { 0 } }
 }
 
 fn item_text(it: &Item) -> String {
@@ -360,6 +364,9 @@ fn item_text(it: &Item) -> String {
             let lits: Vec<String> = parts.iter().map(|l| format!("\"{}\"", spell(l))).collect();
             format!("const char *t{}[] = {{{}}};", k, lits.join(", "))
         }
+        // every fourth one goes through a macro that uses its parameter twice (the constant is hidden while
+        // macros are replaced and must come back at each use)
+        Item::CharConst(k, p) if k % 4 == 1 => format!("const char c{} = PICK2('{}');", k, spell(&vec![p.clone()])),
         Item::CharConst(k, p) => format!("const char c{} = '{}';", k, spell(&vec![p.clone()])),
         Item::CallArg(l) => format!("ff(\"{}\");", spell(l)),
         Item::LocalInitCalls(a, b, shape) => {
@@ -411,9 +418,16 @@ pub fn source(c: &Case) -> String {
     for (n, v) in &c.macros {
         s.push_str(&format!("#define {} {}\n", n, v));
     }
-    s.push_str("char *pp;\nvoid ff(char *q) { }\n");
+    s.push_str("#define PICK2(p) ((p) | (p))\nchar *pp;\nvoid ff(char *q) { }\n");
     if c.stmts.iter().any(|i| matches!(i, Item::TwoCalls(..) | Item::ThreeCalls(..) | Item::LocalInitCalls(..))) {
         s.push_str("char cr;\nchar fc(char *q) { return 1; }\nchar gc(char *q, char c) { return c; }\nchar g3(char *q, char c, char *r) { return c; }\n");
+    }
+    // a string literal in a clause that is not compiled must not disturb the literals that follow
+    match c.skipped_literal {
+        1 => s.push_str("#if 1\nconst char sk_taken[] = \"taken\";\n#else\nconst char sk_other[] = \"never compiled\";\n#endif\n"),
+        2 => s.push_str("#define SK_DEFINED 1\n#ifdef SK_DEFINED\nchar sk_v;\n#else\nconst char sk_other[] = \"never \\\"compiled\\\"\";\n#endif\n"),
+        3 => s.push_str("#if 1\nchar sk_v;\n#elif 1\nconst char sk_a[] = \"a\";\n#else\nconst char sk_b[] = \"b\" \"c\";\n#endif\n"),
+        _ => {}
     }
     let has_header = !c.header.is_empty() || !c.header_macros.is_empty();
     for (i, l) in c.lines.iter().enumerate() {
